@@ -482,3 +482,16 @@ def shrink(case, smaller, fails, budget=400):
             except Exception:
                 continue
     return case
+
+
+def check_oracle_hypothesis(ctx, drv, items):
+    """items: [(memo, base_data)]. The round-trip theorems assume difflib's get_opcodes contract of the oracle
+    (Lean: OracleOK / opcodesValid). Evaluate that very predicate, through the driver, on every recorded answer."""
+    todo = [(m, b) for m, b in items if m.opcodes]
+    if not todo:
+        return
+    for (m, base), rep in zip(todo, drv.run([{'cmd': 'oracleok', 'memo': m.to_json()} for m, _ in todo])):
+        ctx.cov['theorem_hypothesis_checks'] = ctx.cov.get('theorem_hypothesis_checks', 0) + int(rep.get('checked', 0))
+        if rep.get('ok') is not True:
+            ctx.violation('hypothesis OracleOK of the round-trip theorem does not hold for a recorded difflib answer: %s' % json.dumps(rep)[:200],
+                          dict(base, kind='hypothesis', theorem='Nbdime.C02_roundtrip_partial (OracleOK)', reply=rep), found=False, classify=False)
